@@ -19,6 +19,7 @@ from .tensor import Sym, arr, lift, _obj, _full
 from .explore import NotModelled
 
 _REAL = {}
+_MISSING = object()
 
 
 def _save(mod, name):
@@ -76,12 +77,15 @@ def patched(*triples):
     saved = []
     try:
         for mod, name, new in triples:
-            saved.append((mod, name, getattr(mod, name)))
+            saved.append((mod, name, getattr(mod, name, _MISSING)))
             setattr(mod, name, new)
         yield
     finally:
         for mod, name, old in reversed(saved):
-            setattr(mod, name, old)
+            if old is _MISSING:
+                delattr(mod, name)
+            else:
+                setattr(mod, name, old)
 
 
 def torch_patches(random=True, exact_linspace=True):
